@@ -3,8 +3,8 @@ package main
 import (
 	"fmt"
 	"go/token"
-	"os"
 	"go/types"
+	"os"
 	"strings"
 
 	"golang.org/x/tools/go/ssa"
@@ -891,11 +891,21 @@ func (fr *Frame) appendCellsPath(st *State, c string, boxed bool, path []int, fi
 		return wrap(fmt.Sprintf("(sidx %s %s)", sl, i))
 	}
 	// forall j in [0, len res): new[res[j]] = j < len s ? old[s[j]] : old[xs[j-len s]]
-	vc.assumeIf(st.pc, fmt.Sprintf("(forall ((j Int)) (! (=> (and (<= 0 j) (< j (s_len %s))) (= (select %s %s) (ite (< j (s_len %s)) (select %s %s) (select %s %s)))) :pattern (%s)))",
+	pat := fmt.Sprintf(":pattern (%s)", cell(res, "j"))
+	if top := e.topFrame; top != nil && top.con != nil && top.con.Options["appendsrc"] {
+		// also fire on a known element of the source: carries an existential witness index over the append
+		pat += fmt.Sprintf(" :pattern (%s)", cell(s, "j"))
+	}
+	vc.assumeIf(st.pc, fmt.Sprintf("(forall ((j Int)) (! (=> (and (<= 0 j) (< j (s_len %s))) (= (select %s %s) (ite (< j (s_len %s)) (select %s %s) (select %s %s)))) %s))",
 		res, nw, cell(res, "j"),
 		s, old, cell(s, "j"),
 		old, cell(xs, fmt.Sprintf("(- j (s_len %s))", s)),
-		cell(res, "j")))
+		pat))
+	if top := e.topFrame; top != nil && top.con != nil && top.con.Options["appendsrc"] {
+		// the same fact stated from a known element of the appended slice (append(s, xs...))
+		vc.assumeIf(st.pc, fmt.Sprintf("(forall ((i Int)) (! (=> (and (<= 0 i) (< i (s_len %s))) (= (select %s %s) (select %s %s))) :pattern (%s)))",
+			xs, nw, cell(res, fmt.Sprintf("(+ (s_len %s) i)", s)), old, cell(xs, "i"), cell(xs, "i")))
+	}
 	// ground instances for explicit arguments (append(s, x, y)): gives E-matching the new elements' terms
 	if k := fr.appendStatic; k >= 0 && k <= 4 {
 		for j := 0; j < k; j++ {
